@@ -19,8 +19,8 @@ fn lemma_ref_roundtrip() {
     let data: [u8; 6] = kani::any();
     let len: usize = kani::any();
     kani::assume(len <= 6);
-    let enc = ref_encode(&data, len, a, b);
-    let dec = ref_decode(&enc.b, enc.len, a, b);
+    let enc = ref_encode::<6>(&data, len, a, b);
+    let dec = ref_decode::<CAP>(&enc.b, enc.len, a, b);
     assert!(dec.is_some());
     let dec = dec.unwrap();
     assert_eq!(dec.len, len);
@@ -40,7 +40,7 @@ fn lemma_ref_stuff_free_and_bounded() {
     let data: [u8; 6] = kani::any();
     let len: usize = kani::any();
     kani::assume(len <= 6);
-    let enc = ref_encode(&data, len, a, b);
+    let enc = ref_encode::<6>(&data, len, a, b);
     let j: usize = kani::any();
     if j < CAP - 1 && j + 1 < enc.len {
         assert!(!(enc.b[j] == 0xFE && enc.b[j + 1] == 0xFD));
